@@ -108,6 +108,7 @@ type gl struct {
 	extVocab    map[string]string // "pkg.Func" of another module with a GoRt counterpart (its semantics is assumed)
 	outParams   bool              // parameters of type []*int are lists of pointee values, copied in and handed back
 	bufLocals   map[types.Object]bool // locals holding bufio.NewReader(r): the reader state itself
+	extPure     map[string]string // "pkg.Func" with a pure GoRt/model counterpart (assumed semantics, trusted base)
 	funcAlias   map[string]string // Go function name -> translated name when they differ
 	ioReaderBuf bool // an io.Reader parameter wrapped by bufio.NewReader is the abstract BufRd
 	yield2      bool // the iter.Seq2 closure being translated yields pairs
@@ -1474,6 +1475,19 @@ func (e ex) opnd2() string {
 }
 
 func (g *gl) call(c *ast.CallExpr) ex {
+	if sel, ok := c.Fun.(*ast.SelectorExpr); ok && g.extPure != nil {
+		if pk, ok := sel.X.(*ast.Ident); ok {
+			if pn, ok := g.info.Uses[pk].(*types.PkgName); ok {
+				if voc, ok := g.extPure[pn.Imported().Path()+"."+sel.Sel.Name]; ok {
+					parts := []string{voc}
+					for _, a := range c.Args {
+						parts = append(parts, g.expr(a).arg())
+					}
+					return ex{text: strings.Join(parts, " ")}
+				}
+			}
+		}
+	}
 	if sel, ok := c.Fun.(*ast.SelectorExpr); ok && g.extVocab != nil {
 		if pk, ok := sel.X.(*ast.Ident); ok {
 			if pn, ok := g.info.Uses[pk].(*types.PkgName); ok {
@@ -1989,6 +2003,87 @@ func (g *gl) leanTypeOK(t types.Type) (s string) {
 		}
 	}()
 	return g.leanType(t)
+}
+
+// typeSwitch: switch x := y.(type) over an `any` that is the model's sum type: a match on its constructors.
+// A `default` clause is emitted only when some constructor is not named (the sum type has no other inhabitants:
+// that `any` values are exactly these types is the declared abstraction).
+func (g *gl) typeSwitch(w *wr, v *ast.TypeSwitchStmt) {
+	if g.anyLean == "" || v.Init != nil {
+		g.die(v, "type switch")
+	}
+	var subj ast.Expr
+	bound := ""
+	switch a := v.Assign.(type) {
+	case *ast.AssignStmt:
+		if len(a.Lhs) != 1 || len(a.Rhs) != 1 {
+			g.die(v, "type switch form")
+		}
+		bound = a.Lhs[0].(*ast.Ident).Name
+		subj = a.Rhs[0].(*ast.TypeAssertExpr).X
+	case *ast.ExprStmt:
+		subj = a.X.(*ast.TypeAssertExpr).X
+	default:
+		g.die(v, "type switch form")
+	}
+	x := g.expr(subj)
+	if x.act {
+		g.die(v, "type switch subject with effects")
+	}
+	w.line("match " + x.opnd() + " with")
+	covered := map[string]bool{}
+	var def *ast.CaseClause
+	g.loops = append(g.loops, "switch")
+	defer func() { g.loops = g.loops[:len(g.loops)-1] }()
+	for _, st := range v.Body.List {
+		cc := st.(*ast.CaseClause)
+		if cc.List == nil {
+			def = cc
+			continue
+		}
+		if len(cc.List) != 1 {
+			g.die(cc, "type switch clause with several types")
+		}
+		t := g.info.Types[cc.List[0]].Type
+		key := ""
+		switch {
+		case isByte(t):
+			key = "byte"
+		case isFloat(t):
+			key = "float64"
+		case isInt(t):
+			key = "int"
+		default:
+			if b, ok := t.Underlying().(*types.Basic); ok && b.Kind() == types.String {
+				key = "string"
+			} else if sl, ok := t.Underlying().(*types.Slice); ok && isByte(sl.Elem()) {
+				key = "[]byte"
+			}
+		}
+		ctor, ok := g.anyCtor[key]
+		if !ok || covered[ctor] {
+			g.die(cc, "type switch clause")
+		}
+		covered[ctor] = true
+		name := "_"
+		if o := g.info.Implicits[cc]; o != nil && bound != "" {
+			name = g.nameOf(o)
+		}
+		w.line("| " + ctor + " " + name + " =>")
+		w.ind++
+		g.block(w, cc.Body)
+		w.ind--
+	}
+	if len(covered) < len(g.anyCtor) {
+		w.line("| _ =>")
+		w.ind++
+		if def != nil {
+			g.block(w, def.Body)
+		} else {
+			w.line("pure ()")
+		}
+		w.ind--
+	}
 }
 
 // oneLit stands for the constant 1 of `x++` / `x--`
@@ -2930,6 +3025,13 @@ func (g *gl) stmt(w *wr, s ast.Stmt) {
 			if sel, ok := c.Fun.(*ast.SelectorExpr); ok {
 				if pk, ok := sel.X.(*ast.Ident); ok {
 					if pn, ok := g.info.Uses[pk].(*types.PkgName); ok && pn.Imported().Path() == "sort" {
+						if sel.Sel.Name == "Strings" && len(c.Args) == 1 {
+							if x, ok := c.Args[0].(*ast.Ident); ok {
+								n := g.lvName(x)
+								w.line(n + " := sortBytes " + n) // Go compares strings bytewise
+								return
+							}
+						}
 						if sel.Sel.Name == "Ints" && len(c.Args) == 1 {
 							if x, ok := c.Args[0].(*ast.Ident); ok {
 								n := g.lvName(x)
@@ -3124,6 +3226,9 @@ func (g *gl) stmt(w *wr, s ast.Stmt) {
 		return
 	case *ast.SwitchStmt:
 		g.switchStmt(w, v)
+		return
+	case *ast.TypeSwitchStmt:
+		g.typeSwitch(w, v)
 		return
 	case *ast.ForStmt:
 		g.forStmt(w, v)
@@ -5078,7 +5183,7 @@ func loadPkg(dir string) *gl {
 		for _, n := range names {
 			g.files = append(g.files, p.Files[n])
 		}
-		g.info = &types.Info{Types: map[ast.Expr]types.TypeAndValue{}, Defs: map[*ast.Ident]types.Object{}, Uses: map[*ast.Ident]types.Object{}}
+		g.info = &types.Info{Types: map[ast.Expr]types.TypeAndValue{}, Defs: map[*ast.Ident]types.Object{}, Uses: map[*ast.Ident]types.Object{}, Implicits: map[ast.Node]types.Object{}}
 		conf := types.Config{Importer: importer.ForCompiler(fset, "source", nil), Error: func(error) {}}
 		g.pkg, _ = conf.Check(p.Name, fset, g.files, g.info)
 	}
@@ -5279,6 +5384,11 @@ func goLean(repo, out string) {
 	g5b.function("parseInts", "formats/sam", "def parseInts (strconv_Atoi : "+SATOI+") (strs : "+BB+") (p : List Int) : Option (GoErr × (List Int)) := none")
 	const SAMT = "((List UInt8) × Int × (List UInt8) × Int × Int × (List UInt8) × (List UInt8) × Int × Int × (List UInt8) × (List UInt8) × ("+TAGS+"))"
 	g5b.funcOrMethod("", "parseLine", "sam_parseLine", "formats/sam", "def sam_parseLine (hex_DecodeString : "+SHEX+") (strconv_Atoi : "+SATOI+") (strconv_ParseFloat : "+SPF+") (line : "+BB+") : Option ((Option "+SAMT+") × GoErr) := none")
+	g5b.extPure = map[string]string{"strconv.Itoa": "itoa", "encoding/hex.EncodeToString": "hexEnc"}
+	g5b.extFuncs["strconv.FormatFloat"] = extFunc{"strconv_FormatFloat", "List UInt8 → UInt8 → Int → Int → List UInt8"}
+	const SFF = "List UInt8 → UInt8 → Int → Int → List UInt8"
+	g5b.function("tagToText", "formats/sam", "def tagToText (strconv_FormatFloat : "+SFF+") (tag : "+B+") (val : Sam.TagVal) : Option ("+B+") := none")
+	g5b.function("tagsToText", "formats/sam", "def tagsToText (strconv_FormatFloat : "+SFF+") (tags : "+TAGS+") : Option ("+BB+") := none")
 	g5b.ioReaderBuf = true
 	g5b.funcAlias = map[string]string{"parseLine": "sam_parseLine"}
 	const SHT = "(((Option (List UInt8)) × (Option "+SAMT+")) × GoErr)"
